@@ -75,12 +75,25 @@ func vaSprint(v *VM, va []Value) string {
 	return strings.Join(res, " ")
 }
 
+// fmtSprint joins operands the way fmt.Sprint and fmt.Print do: a space is added between operands
+// when neither is a string.
+func fmtSprint(v *VM, va []Value) string {
+	var sb strings.Builder
+	for i, a := range va {
+		if i > 0 && a.t.base() != TypeString && va[i-1].t.base() != TypeString {
+			sb.WriteByte(' ')
+		}
+		sb.WriteString(sprint(v, a))
+	}
+	return sb.String()
+}
+
 func loadFmt(g *lookup) {
 	g.Set("fmt.Sprint", NewFunc(1, 1, func(v *VM, args []Value, vargs ...Value) []Value {
-		return []Value{String(vaSprint(v, vargs))}
+		return []Value{String(fmtSprint(v, vargs))}
 	}))
 	g.Set("fmt.Print", NewFunc(1, 0, func(v *VM, args []Value, vargs ...Value) []Value {
-		fmt.Fprint(v.stdout, vaSprint(v, vargs))
+		fmt.Fprint(v.stdout, fmtSprint(v, vargs))
 		return nil
 	}))
 	g.Set("fmt.Println", NewFunc(1, 0, func(v *VM, args []Value, vargs ...Value) []Value {
